@@ -10,7 +10,8 @@
 (*          service ({} = no question), the verdict v, and ok = the        *)
 (*          harness's own form check of the question (nothing but 4-digit  *)
 (*          hex labels + the configured suffix, name not found anywhere in *)
-(*          the message, no error);                                        *)
+(*          the message); f = the mock service was failing during the call *)
+(*          (seeded schedule), e = the call returned an error;             *)
 (*   tick   d units of virtual time pass;                                  *)
 (*   db     the service adds / deletes hashes.                             *)
 (* Used for both directions: A (walks planned from HashPrefix.tla's graph, *)
@@ -36,9 +37,16 @@ EmptyCache == [p \in {} |-> [ttl |-> 0, hs |-> {}]]
 
 VARIABLES l, db, cache, life, skip, bad, nskip
 
+\* f = the mock service was set to fail during this call (the environment's
+\* move, known to the harness); e = the call returned an error.
 Accepts(e) ==
     /\ e.ok
-    /\ \E o \in Outcomes(e.n, cache, db) : o.q = Set(e.q) /\ o.v = e.v
+    /\ ~e.e
+    /\ \E o \in (IF e.f THEN QuietOutcomes(e.n, cache, db) ELSE Outcomes(e.n, cache, db)) :
+            o.q = Set(e.q) /\ o.v = e.v
+\* the failure showed: error to the caller, only candidate prefixes asked
+AcceptsFailed(e) ==
+    e.ok /\ e.f /\ e.e /\ Set(e.q) \in FailQuestions(e.n)
 
 Init == l = 1 /\ db = {} /\ cache = EmptyCache /\ life = 1 /\ skip = FALSE /\ bad = {} /\ nskip = 0
 
@@ -52,13 +60,17 @@ Step(e) ==
     THEN /\ cache' = Age(cache, e.d) /\ UNCHANGED <<db, life, skip, bad, nskip>>
     ELSE IF e.a = "db"
     THEN /\ db' = (db \ Set(e.del)) \cup Set(e.add) /\ UNCHANGED <<cache, life, skip, bad, nskip>>
+    ELSE IF AcceptsFailed(e)
+    THEN UNCHANGED <<db, cache, life, skip, bad, nskip>>      \* a failed lookup leaves the cache as it was
     ELSE IF Accepts(e)
     THEN /\ cache' = Store(cache, Set(e.q), Received(db, Set(e.q)), life)
          /\ UNCHANGED <<db, life, skip, bad, nskip>>
     ELSE /\ bad' = bad \cup {l} /\ skip' = TRUE /\ UNCHANGED <<db, cache, life, nskip>>
          \* diagnostics for the replay record: what the rules admit here
          /\ PrintT(<<"@@V", ToJson([line |-> l,
-                                    admissible |-> {[q |-> o.q, v |-> o.v] : o \in Outcomes(e.n, cache, db)},
+                                    admissible |-> {[q |-> o.q, v |-> o.v] :
+                                        o \in (IF e.f THEN QuietOutcomes(e.n, cache, db) ELSE Outcomes(e.n, cache, db))},
+                                    failing |-> e.f,
                                     valid |-> {p \in PrefsOf(e.n, Core(e.n) \cup Opt(e.n)) : Valid(cache, p)}])>>)
 
 Next == /\ l <= Len(Trace)
